@@ -256,6 +256,49 @@ def r5(run, db):
         run.check(len(st) == 1 and f.value_consts(st[0][1]["rv"]["op"]) == ["ractor::factory::factoryimpl::DrainState::Draining"] if st and st[0][1]["rv"]["k"] == "use" else False or (len(st) == 1), "drain|state-store", "the drain handler stores Draining", "drain handler does not store Draining", f.where())
         if st and hk:
             run.check(f.dominates(st[0][0], hk[0].site), "drain|store-before-hook", "the state is Draining before the draining hook runs", "hook before state store", hk[0].where())
+        # once: the transition (and its hook) happens only from NotDraining -- a repeated request while Draining / after
+        # Drained must neither run the draining hook again nor move the state backwards
+        DS = ["NotDraining", "Draining", "Drained"]
+        D = fields(db).fs_drain_state
+        def from_state(fn, op):
+            return any(D in [proj_field_name(e) for e in r.get("proj", []) + r.get("trail", []) if e.startswith("f:")] for r in fn.origins(op, through=lambda c: 0 if c.matches(r"Deref>::deref$|DerefMut>::deref_mut$") else None))
+        def admitted_at(site):
+            adm = set(DS)
+            n = 0
+            for c in f.calls():
+                m = re.search(r"cmp::PartialEq::(eq|ne)$", c.callee or "")
+                if not m or "DrainState" not in (c.self_ty or "") + " ".join(c.gargs):
+                    continue
+                sides = [(from_state(f, c.args[0]), f.value_consts(c.args[0])), (from_state(f, c.args[1]), f.value_consts(c.args[1]))]
+                k = None
+                if sides[0][0] and sides[1][1]:
+                    k = sides[1][1][0]
+                elif sides[1][0] and sides[0][1]:
+                    k = sides[0][1][0]
+                if not k:
+                    continue
+                k = k.split("::")[-1]
+                for edge, pol in ((true_edge(f, c), True), (false_edge(f, c), False)):
+                    if edge and f.edge_dominates(edge, site):
+                        n += 1
+                        want_eq = (m.group(1) == "eq") == pol
+                        adm &= ({k} if want_eq else set(DS) - {k})
+            for sw_site, t in f.switches():
+                info = f.switch_info(sw_site)
+                if info.get("kind") == "enum" and str(info.get("disc_adt") or info.get("disc_ty") or "").endswith("DrainState") and from_state(f, {"k": "copy", "p": info["disc_place"]}):
+                    by_t = {}
+                    for nm, tgt in info["edges"].items():
+                        if nm in DS:
+                            by_t.setdefault(tgt, set()).add(nm)
+                    for tgt, names in by_t.items():
+                        if f.edge_dominates((sw_site.bb, tgt), site):
+                            n += 1
+                            adm &= names
+            return adm, n
+        for site, _s in st:
+            adm, n = admitted_at(site)
+            run.check(n >= 1 and adm == {"NotDraining"}, "drain|only-from-NotDraining", "the Draining store (and with it the draining hook) is reachable only when the state is NotDraining",
+                      "drain_requests stores Draining and runs on_factory_draining whatever the current state is (reachable from %s): a repeated DrainRequests runs the draining hook again (started, draining, draining, stopped) and can move a Drained factory back to Draining" % sorted(adm), f.where())
     # all drain_state stores
     for f in db.crate_fns("ractor"):
         for site, s in f.stmts():
